@@ -163,7 +163,9 @@ TIE_THEOREM = {"Secs": "secs_tie", "NoteDur": "noteDur_tie", "BpmDecode": "bpmDe
                            "C15_negative_code", "C15_zero_bpm_code"],
                "ComposeInst": ["C04_table_code", "C04_first_forced_code", "C04_threshold_code", "C05_during_code"],
                "ComposeSync": ["C08_bpm_code", "C08_ts_lower_code"],
-               "ComposeRate": ["C16_nonpositive_code", "C16_value_code"]}
+               "ComposeRate": ["C16_nonpositive_code", "C16_value_code"],
+               # loops and glue, dumped as terms of the imperative embedding (Model/Imp.lean, Gen/Imp.lean)
+               "LoopEvents": ["dataToEvents_tie"], "LoopSp": ["spData_tie"], "LoopGroups": ["buildNoteEvents_tie"]}
 
 
 def leaf_ties(prop, st, tier="quick") -> dict:
@@ -172,8 +174,9 @@ def leaf_ties(prop, st, tier="quick") -> dict:
     the correspondence check remains the tie — but it makes this run explore four times deeper."""
     res = {}
     for X in getattr(prop, "LEAVES", {}):
-        if not st.get("Leaf", {}).get("ok"):
-            res[X] = {"proved": False, "why": "translation of Gen/Leaf.lean failed: " + str(st.get("Leaf", {}).get("error"))[:200]}
+        sec = "Imp" if X.startswith("Loop") else "Leaf"
+        if not st.get(sec, {}).get("ok"):
+            res[X] = {"proved": False, "why": f"translation of Gen/{sec}.lean failed: " + str(st.get(sec, {}).get("error"))[:200]}
             continue
         ok, out = lake_build([f"Chartparse.Tie.{X}"])
         if not ok:
@@ -299,6 +302,9 @@ def run(pid: str, tier: str, seed: int) -> int:
         if getattr(prop, "LEAVES", None) and driver_ok:
             from verif import leaf
             leaf.validate(ctx, out, list(prop.LEAVES.values()))
+            if getattr(prop, "IMP", None):
+                from verif import impval
+                impval.validate(ctx, out, list(prop.IMP))
             for X, v in ties.items():
                 out.notes.append(f"leaf tie {X}: " + (f"{v['theorem']} holds for the AST dumped from the working tree" if v["proved"]
                                                       else f"NOT established ({v['why']}); tie = correspondence only, exploration ×4"))
